@@ -11,7 +11,8 @@
    any number of zones) or absent; /proc/vmstat as any list of "name value [rest]" lines
    (names may repeat) and other lines, or absent; the page size; the sysinfo(2) swap
    figures.  Percentages are in tenths.
-   [no_junk]: every meminfo line is "name number ..." (true of every kernel since 2.5).
+   [no_junk]: every meminfo line is "name number ..." (true of every kernel since 2.5) -- only
+   the refuted theorems about the parser used before commit db3d5fc mention it.
    [float_exact]: the double-precision evaluation of the estimate is exact (page size a
    multiple of 512 and free+watermark+pagecache+slab < 2^61 bytes; vacuous when the
    estimate's watermark formula is not evaluated). *)
@@ -28,40 +29,33 @@ From PV Require Import C08.Spec C08.ProofsRound C08.ProofsVM C08.ProofsSwap C08.
    the warning names exactly the metrics set to 0 (slab excepted) and "available" when it was
    forced up to 0. *)
 Theorem C08_vm_exact : forall k,
-  wf_kernel k = true -> has_total_free k = true -> no_junk (k_mem k) = true -> float_exact k = true ->
+  wf_kernel k = true -> has_total_free k = true -> float_exact k = true ->
   virtual_memory (k_pagesize k) (k_meminfo (k_mem k)) (option_map k_zoneinfo (k_zone k))
   = Val (spec_vm k).
 Proof. exact vm_exact. Qed.
 Print Assumptions C08_vm_exact.
 
-(* known finding: a meminfo line that is not "name number ..." makes both calls fail -- every file
-   containing one; the witness is the /proc/meminfo of Linux 2.4 (legacy three-line header), for
-   which the parser of notes/fixes/C08-meminfo-legacy-header.diff returns the demanded record *)
-Theorem C08_meminfo_junk_raises : forall k ms1 b ms2 (z : option bytes),
+(* fixed finding (db3d5fc): the parser used before (no try/except around int(fields[1])) made both
+   calls fail on EVERY meminfo containing a line that is not "name number ..."; the witness is the
+   /proc/meminfo of Linux 2.4 (legacy three-line header), on which the code as it is now returns
+   the demanded record through the MemShared / Inact_* branches *)
+Theorem C08_legacy_parser_junk_raises : forall k ms1 b ms2 (z : option bytes),
   wf_kernel k = true -> k_mem k = ms1 ++ MJunk b :: ms2 -> no_junk ms1 = true ->
-  (virtual_memory (k_pagesize k) (k_meminfo (k_mem k)) z = Exc IndexError \/
-   virtual_memory (k_pagesize k) (k_meminfo (k_mem k)) z = Exc ValueError) /\
-  (forall si v, swap_memory (k_pagesize k) (k_meminfo (k_mem k)) si v = Exc IndexError \/
-                swap_memory (k_pagesize k) (k_meminfo (k_mem k)) si v = Exc ValueError).
-Proof. exact vm_junk_raises. Qed.
-Print Assumptions C08_meminfo_junk_raises.
+  (virtual_memory_gen false (k_pagesize k) (k_meminfo (k_mem k)) z = Exc IndexError \/
+   virtual_memory_gen false (k_pagesize k) (k_meminfo (k_mem k)) z = Exc ValueError) /\
+  (forall si v, swap_memory_gen false (k_pagesize k) (k_meminfo (k_mem k)) si v = Exc IndexError \/
+                swap_memory_gen false (k_pagesize k) (k_meminfo (k_mem k)) si v = Exc ValueError).
+Proof. exact legacy_parser_junk_raises. Qed.
+Print Assumptions C08_legacy_parser_junk_raises.
 
-Theorem C08_vm_legacy_header_refuted :
+Theorem C08_legacy_parser_refuted :
   exists k, wf_kernel k = true /\ has_total_free k = true /\ float_exact k = true /\
-    virtual_memory (k_pagesize k) (k_meminfo (k_mem k)) (option_map k_zoneinfo (k_zone k)) = Exc ValueError /\
-    swap_memory (k_pagesize k) (k_meminfo (k_mem k)) (k_sysinfo k) (option_map k_vmstat (k_vm k)) = Exc ValueError /\
-    virtual_memory_gen true (k_pagesize k) (k_meminfo (k_mem k)) (option_map k_zoneinfo (k_zone k)) = Val (spec_vm k) /\
+    virtual_memory_gen false (k_pagesize k) (k_meminfo (k_mem k)) (option_map k_zoneinfo (k_zone k)) = Exc ValueError /\
+    swap_memory_gen false (k_pagesize k) (k_meminfo (k_mem k)) (k_sysinfo k) (option_map k_vmstat (k_vm k)) = Exc ValueError /\
+    virtual_memory (k_pagesize k) (k_meminfo (k_mem k)) (option_map k_zoneinfo (k_zone k)) = Val (spec_vm k) /\
     v_shared (spec_vm k) = 0 /\ v_inactive (spec_vm k) = 152000 * 1024 /\ v_missing (spec_vm k) = [].
-Proof. exact vm_legacy_header_refuted. Qed.
-Print Assumptions C08_vm_legacy_header_refuted.
-
-(* the repaired (lenient) parser meets the specification at full strength: no [no_junk] hypothesis *)
-Theorem C08_vm_exact_lenient : forall k,
-  wf_kernel k = true -> has_total_free k = true -> float_exact k = true ->
-  virtual_memory_gen true (k_pagesize k) (k_meminfo (k_mem k)) (option_map k_zoneinfo (k_zone k))
-  = Val (spec_vm k).
-Proof. exact vm_exact_lenient. Qed.
-Print Assumptions C08_vm_exact_lenient.
+Proof. exact vm_legacy_parser_refuted. Qed.
+Print Assumptions C08_legacy_parser_refuted.
 
 (* the estimate and /proc/zoneinfo, all contents: (a) when the file is not consulted (MemAvailable
    present and non-zero, or an input of the estimate missing) ANY content -- absent, unparsable,
@@ -104,7 +98,7 @@ Proof. exact C08.Lib.rnd53_exact. Qed.
 Print Assumptions C08_rnd53_exact.
 
 Theorem C08_vm_float_bound_needed :
-  exists k r, wf_kernel k = true /\ has_total_free k = true /\ no_junk (k_mem k) = true /\ float_exact k = false /\
+  exists k r, wf_kernel k = true /\ has_total_free k = true /\ float_exact k = false /\
     virtual_memory (k_pagesize k) (k_meminfo (k_mem k)) (option_map k_zoneinfo (k_zone k)) = Val r /\
     v_available r = 2 ^ 63 /\ sp_available k = 2 ^ 63 + 2048.
 Proof. exact vm_float_bound_needed. Qed.
@@ -113,7 +107,7 @@ Print Assumptions C08_vm_float_bound_needed.
 (* whichever optional counters are missing: the metric is 0 and is named in the warning (slab is
    0 silently); SReclaimable missing leaves cached = page cache *)
 Theorem C08_vm_missing_fields : forall k r,
-  wf_kernel k = true -> has_total_free k = true -> no_junk (k_mem k) = true -> float_exact k = true ->
+  wf_kernel k = true -> has_total_free k = true -> float_exact k = true ->
   virtual_memory (k_pagesize k) (k_meminfo (k_mem k)) (option_map k_zoneinfo (k_zone k)) = Val r ->
   (kbytes (k_mem k) "Buffers:" = None -> v_buffers r = 0 /\ In (bs "buffers") (v_missing r)) /\
   (kbytes (k_mem k) "Cached:" = None -> v_cached r = 0 /\ In (bs "cached") (v_missing r)) /\
@@ -131,7 +125,7 @@ Print Assumptions C08_vm_missing_fields.
 
 (* ... and the warning names nothing but metrics that are reported as 0 *)
 Theorem C08_vm_warning_sound : forall k r,
-  wf_kernel k = true -> has_total_free k = true -> no_junk (k_mem k) = true -> float_exact k = true ->
+  wf_kernel k = true -> has_total_free k = true -> float_exact k = true ->
   virtual_memory (k_pagesize k) (k_meminfo (k_mem k)) (option_map k_zoneinfo (k_zone k)) = Val r ->
   forall n, In n (v_missing r) ->
     (n = bs "buffers" /\ v_buffers r = 0) \/ (n = bs "cached" /\ v_cached r = 0) \/
@@ -189,24 +183,19 @@ Print Assumptions C08_round1_unique.
    total/free from SwapTotal/SwapFree (sysinfo(2) when either is absent), used = total-free, percent;
    sin/sout = swapped pages x page size, over ANY vmstat: repeated counter lines (read as a log:
    the last pswpin/pswpout line before both are known), extra columns, value-less and blank lines;
-   both 0 with a warning when vmstat or a counter is absent.  (Code as of commit fe3ce75.) *)
+   both 0 with a warning when vmstat or a counter is absent; meminfo may contain lines that are
+   not "name number ...".  (Code as of commits fe3ce75, db3d5fc.) *)
 Theorem C08_swap_exact : forall k,
-  wf_kernel k = true -> no_junk (k_mem k) = true ->
+  wf_kernel k = true ->
   swap_memory (k_pagesize k) (k_meminfo (k_mem k)) (k_sysinfo k) (option_map k_vmstat (k_vm k))
   = Val (spec_swap k).
 Proof. exact swap_exact. Qed.
 Print Assumptions C08_swap_exact.
 
-Theorem C08_swap_exact_lenient : forall k, wf_kernel k = true ->
-  swap_memory_gen true (k_pagesize k) (k_meminfo (k_mem k)) (k_sysinfo k) (option_map k_vmstat (k_vm k))
-  = Val (spec_swap k).
-Proof. exact swap_exact_lenient. Qed.
-Print Assumptions C08_swap_exact_lenient.
-
 (* with distinct names -- what every kernel prints -- the log reading is the lookup by name:
    sin/sout are the pswpin/pswpout counters times the page size *)
 Theorem C08_swap_counters_distinct : forall k vs i o,
-  wf_kernel k = true -> no_junk (k_mem k) = true ->
+  wf_kernel k = true ->
   k_vm k = Some vs -> nodupb (vnames vs) = true ->
   vfind (bs "pswpin") vs = Some i -> vfind (bs "pswpout") vs = Some o ->
   exists r, swap_memory (k_pagesize k) (k_meminfo (k_mem k)) (k_sysinfo k) (option_map k_vmstat (k_vm k)) = Val r /\
@@ -225,7 +214,7 @@ Print Assumptions C08_swap_literal_4096_refuted.
 (* whichever of vmstat / pswpin / pswpout is missing: success, sin = sout = 0 and the warning;
    total, free, used unaffected *)
 Theorem C08_swap_missing_counters : forall k r,
-  wf_kernel k = true -> no_junk (k_mem k) = true ->
+  wf_kernel k = true ->
   swap_memory (k_pagesize k) (k_meminfo (k_mem k)) (k_sysinfo k) (option_map k_vmstat (k_vm k)) = Val r ->
   (k_vm k = None \/
    (exists vs, k_vm k = Some vs /\ nodupb (vnames vs) = true /\
@@ -243,7 +232,7 @@ Print Assumptions C08_swap_range.
 (* ------------------------------------------------------------------ _TOTAL_PHYMEM / memory_percent() *)
 (* virtual_memory() stores the total it reports ... *)
 Theorem C08_phymem_set : forall k,
-  wf_kernel k = true -> has_total_free k = true -> no_junk (k_mem k) = true -> float_exact k = true ->
+  wf_kernel k = true -> has_total_free k = true -> float_exact k = true ->
   forall c, front_vm c (k_pagesize k) (k_meminfo (k_mem k)) (option_map k_zoneinfo (k_zone k))
             = (Some (sp_total k), Val (spec_vm k)).
 Proof. exact front_vm_sets. Qed.
@@ -253,7 +242,7 @@ Print Assumptions C08_phymem_set.
    evaluates virtual_memory() only when nothing or 0 is cached; ValueError when the total is not
    positive *)
 Theorem C08_memory_percent_spec : forall k,
-  wf_kernel k = true -> has_total_free k = true -> no_junk (k_mem k) = true -> float_exact k = true ->
+  wf_kernel k = true -> has_total_free k = true -> float_exact k = true ->
   forall c value,
   memory_percent c value (k_pagesize k) (k_meminfo (k_mem k)) (option_map k_zoneinfo (k_zone k))
   = sp_memory_percent c value k.
